@@ -27,6 +27,14 @@ A pattern expression is plain JSON data:
     ["Prand", items, repeats]                ["Pshuffle", items, repeats]
     ["unop", name, a]    ["binop", name, a, b]   ["narop", name, a, x, y]
 
+Trailing arguments may be omitted (["Pseq", items], ["Pslide", items, 2],
+["Pseries"] ...): the documented default of the constructor applies (repeats
+1, offset 0, Pn repeats inf, Pswitch index 0, Pslide length 3 / step 1 / start
+0 / wrap / 1 repeat, Pseries 0.0 / 1.0 / inf, Pgeom 1.0 / 1.0 / inf, Pwhite
+length inf).  unop names: neg abs pos invert; binop names: add sub mul div
+floordiv mod pow lt le gt ge eq ne min max (the Python operators; mod only
+for a positive modulus); narop: clip.
+
 The meaning of an expression is a lazy generator of values.  Two protocols,
 as in the documentation: *embedding* (a number embeds as itself once, a
 pattern embeds its whole sequence) and *streaming* (a number is the constant
@@ -91,13 +99,51 @@ FUNCS = {
     'gt1': lambda x: x > 1,
 }
 
-UNOPS = {'neg': lambda a: -a, 'abs': lambda a: abs(a)}
+def _int_only(f):
+    def g(*a):
+        if not all(isinstance(i, int) and not isinstance(i, bool) for i in a):
+            raise DontCare('bitwise operator on a non-integer')
+        return f(*a)
+    return g
+
+
+def _mod(a, b):
+    # the library's % is sclang's mod, which is the floored modulo (Python's
+    # %) for a positive modulus; other moduli are not decided here.
+    if not b > 0:
+        raise DontCare('modulo by a non-positive number')
+    return a % b
+
+
+def _pow(a, b):
+    if b < 0 or abs(a) > 64 or b > 16:
+        raise DontCare('power outside the small non-negative range')
+    return a ** b
+
+
+UNOPS = {'neg': lambda a: -a, 'abs': lambda a: abs(a), 'pos': lambda a: +a,
+         'invert': _int_only(lambda a: ~a)}
 BINOPS = {
     'add': lambda a, b: a + b, 'sub': lambda a, b: a - b,
     'mul': lambda a, b: a * b, 'lt': lambda a, b: a < b,
+    'le': lambda a, b: a <= b, 'gt': lambda a, b: a > b,
+    'ge': lambda a, b: a >= b, 'eq': lambda a, b: a == b,
+    'ne': lambda a, b: a != b,
+    'div': lambda a, b: a / b, 'floordiv': lambda a, b: a // b,
+    'mod': _mod, 'pow': _pow,
     'min': lambda a, b: min(a, b), 'max': lambda a, b: max(a, b),
 }
-NAROPS = {'clip': lambda a, lo, hi: max(min(a, hi), lo)}
+def _clip(a, lo, hi):
+    # The library casts the bounds to the type of the clipped value (as the
+    # C++ template of sclang does): an integer (or boolean) value with
+    # non-integer bounds is a matter of the numeric kernel, not of patterns.
+    if isinstance(a, bool) or (isinstance(a, int) and not (
+            isinstance(lo, int) and isinstance(hi, int))):
+        raise DontCare('clip of an integer/boolean by non-integer bounds')
+    return max(min(a, hi), lo)
+
+
+NAROPS = {'clip': _clip}
 
 
 def is_num(v):
@@ -129,7 +175,10 @@ def lift(f, *vals):
         if not (is_num(v) or isinstance(v, Rnd)):
             raise DontCare('operator on a non-number (list/tuple value)')
     if not any(isinstance(v, Rnd) for v in vals):
-        return f(*vals)
+        try:
+            return f(*vals)
+        except ArithmeticError:
+            raise DontCare('arithmetic error (division by zero, overflow)')
     sets = [sorted(v.cands) if isinstance(v, Rnd) else [v] for v in vals]
     n = 1
     for s in sets:
@@ -140,7 +189,10 @@ def lift(f, *vals):
 
     def rec(i, acc):
         if i == len(sets):
-            out.add(f(*acc))
+            try:
+                out.add(f(*acc))
+            except ArithmeticError:
+                raise DontCare('arithmetic error on a candidate value')
             return
         for x in sets[i]:
             rec(i + 1, acc + [x])
@@ -552,11 +604,11 @@ def _series(env, start, step, length, op):
         cur = nxt
 
 
-def p_series(env, start=0, step=1, length=INF):
+def p_series(env, start=0.0, step=1.0, length=INF):
     yield from _series(env, start, step, length, lambda a, b: a + b)
 
 
-def p_geom(env, start=1, grow=1, length=INF):
+def p_geom(env, start=1.0, grow=1.0, length=INF):
     yield from _series(env, start, grow, length, lambda a, b: a * b)
 
 
